@@ -355,7 +355,7 @@ def run(ck):
     # 3. code -> spec
     r_ = rng(21)
     first = len(events)
-    for n in range(ck.pick(100, 2500)):
+    for n in range(ck.pick(100, 400)):
         record(random_scenario(r_))
         if n == 0:
             ck.sample(dict(direction="code->spec", scenario={k: scen[-1][k] for k in ("engine", "offset", "cfg", "envd")}))
